@@ -12,9 +12,9 @@ Written from the property statement and the HTML syntax of a start tag:
   a non-ASCII letter that case-folds to ASCII (U+017F, U+212A, U+0131, U+0130) at the start of a tag name.
 * final(raw): ASCII-whitespace strip, then decoding of `&amp; &lt; &gt; &quot; &apos;` and of
   `&#D;` / `&#xH;` numeric references to ordinary characters.  Any other `&name` form, a numeric reference
-  without `;` or to a control / surrogate / out-of-range code point, and whitespace (of any kind, raw or
-  entity-encoded) left at either end are AMBIGUOUS (the statement names neither the whitespace set nor
-  the order of strip and unescape).
+  without `;` or to a control / surrogate / out-of-range code point are AMBIGUOUS; ASCII whitespace is stripped again after
+  decoding (the yielded value is stripped AND unescaped); non-ASCII whitespace left at either end, raw or entity-encoded, is
+  AMBIGUOUS (the statement does not name the whitespace set).
 * link helpers: RFC 3986 scheme test, urllib.parse.urljoin resolution, absolute-http(s) test.
 """
 import re
@@ -204,8 +204,10 @@ def final(raw):
     u, amb = unescape(s)
     if amb:
         return None, amb
+    # "whitespace-stripped AND HTML-unescaped": what is yielded is both, so ASCII whitespace written as a numeric reference at an end goes too
+    u = u.strip(WS)
     if u and (u[0].isspace() or u[-1].isspace() or _exotic_space(u[0] + u[-1])):
-        return None, "entity-encoded whitespace at an end of the href"
+        return None, "entity-encoded non-ASCII whitespace at an end of the href"
     return u, None
 
 
